@@ -337,3 +337,57 @@ Proof.
   - rewrite (proj2 (N.eqb_eq _ _) Hs). reflexivity.
   - rewrite (proj2 (N.eqb_neq _ _) H). auto.
 Qed.
+
+(* ---- which contract state the group tests look at ----
+   getContractGroups reads the contract's CURRENT state from ContractManagement at the moment of the check (for every
+   hard-fork), so a contract that left a group by update, or destroyed itself, earlier in the same invocation no
+   longer has it.  [with_table x t] is the context x with contract table t. *)
+Definition with_table (x : wctx) (t : list (N * list N)) : wctx :=
+  mk_wctx (calling x) (current x) (by_entry x) (read_states x) t.
+
+Section table_dependence.
+  Variable x : wctx.
+  Variables t1 t2 : list (N * list N).
+  Hypothesis Hcur : assoc (current x) t1 = assoc (current x) t2.
+  Hypothesis Hcal : assoc (calling x) t1 = assoc (calling x) t2.
+
+  Lemma groups_same h : h = current x \/ h = calling x ->
+    contract_groups (with_table x t1) h = contract_groups (with_table x t2) h.
+  Proof. unfold contract_groups, with_table. simpl. intros [-> | ->]; [rewrite Hcur | rewrite Hcal]; reflexivity. Qed.
+
+  Lemma cmatch_same : forall c, cmatch (with_table x t1) c = cmatch (with_table x t2) c.
+  Proof.
+    induction c as [b | c IH | l IH | l IH | h | g | | h | g] using cond_ind2; try reflexivity.
+    - simpl. rewrite IH. reflexivity.
+    - rewrite !cmatch_and. induction IH as [|c t Hc Ht IHt]; simpl; auto. rewrite Hc, IHt. reflexivity.
+    - rewrite !cmatch_or. induction IH as [|c t Hc Ht IHt]; simpl; auto. rewrite Hc, IHt. reflexivity.
+    - simpl. unfold script_has_group. rewrite (groups_same (current x)); auto.
+    - simpl. unfold script_has_group. rewrite (groups_same (calling x)); auto.
+  Qed.
+
+  Lemma eval_rules_same rules : eval_rules (with_table x t1) rules = eval_rules (with_table x t2) rules.
+  Proof. induction rules as [|r t IH]; simpl; auto. rewrite cmatch_same, IH. reflexivity. Qed.
+
+  (* the answer depends on the contract table only through the CURRENT groups of the executing and the calling contract *)
+  Theorem witness_reads_only_current_and_calling signers h :
+    check_hashed_witness (with_table x t1) signers h = check_hashed_witness (with_table x t2) signers h.
+  Proof.
+    unfold check_hashed_witness. simpl. destruct (negb (calling x =? 0) && (h =? calling x)); auto.
+    unfold check_scope. destruct signers as [|s0 t0]; auto. generalize (s0 :: t0). intros l.
+    induction l as [|s t IH]; simpl; auto. destruct (s_account s =? h); auto.
+    unfold check_signer. simpl. rewrite (groups_same (current x)); auto. rewrite eval_rules_same. reflexivity.
+  Qed.
+End table_dependence.
+
+(* evaluating the group tests against a STALE table (the groups the contract had when its context was loaded) is not
+   sound: a contract that has left the group, or no longer exists, would still be witnessed *)
+Definition stale_groups_statement : Prop :=
+  forall x stale signers h,
+    check_hashed_witness (with_table x stale) signers h = Ok true -> witness_spec x signers h.
+
+Theorem stale_groups_refuted : ~ stale_groups_statement.
+Proof.
+  intros H.
+  specialize (H (mk_wctx 9 2 true true []) [(2, [1])] [mk_signer 5 SCustomGroups [] [1] []] 5 eq_refl).
+  apply witness_specb_iff in H. vm_compute in H. discriminate.
+Qed.
